@@ -117,7 +117,7 @@ def regen_consts(ctx):
 
 LIMITER_FAMILY = ("C01", "C02", "C03", "C04", "C05", "C07", "C08", "C17")
 
-TIE_AUDIT = """Require Import TC.Limiter.Arith TC.Limiter.GenOps TC.Limiter.KeyStep TC.Limiter.Limiter TC.Generated.LimGen TC.Limiter.GenTie.
+TIE_AUDIT = """Require Import TC.Limiter.Arith TC.Limiter.GenOps TC.Limiter.KeyStep TC.Limiter.Limiter TC.Generated.LimGen TC.Limiter.GenTie TC.Limiter.Total TC.Limiter.GenSource.
 From Coq Require Import ZArith Bool.
 Open Scope Z_scope.
 Check gen_calc_is_model : forall Edur B q now tv,
@@ -138,8 +138,20 @@ Check gen_validate_is_model : forall (K : Type) keqb rate (st : Stores.store K) 
   | Some GInvalidRateLimit => (st, ErrInvalidRateLimit)
   | None => attempts K keqb max_retries st orc (r_key rq) (rate (r_count rq) (r_period rq)) (r_B rq) (r_q rq) (r_now rq)
   end.
+Check source_arithmetic_sanity : forall (Edur B q now : Z) (tv : option Z),
+  0 <= Edur -> 1 <= B <= i64max -> 0 <= q <= i64max -> 0 <= now <= t2200 ->
+  let g := gen_calc Edur B q now tv in
+  g_limit g = B /\\ 0 <= g_remaining g <= B /\\ (g_retry_after g = 0 <-> g_allowed g = true) /\\
+  0 <= g_cas_ttl g <= i64max /\\ 0 <= g_nx_ttl g <= i64max /\\ g_cas_new g = g_nx_new g /\\
+  0 <= g_reset_after g <= i64max /\\ 0 <= g_retry_after g <= i64max /\\
+  (g_write g = true <-> g_allowed g = true /\\ 0 < q).
+Check source_fresh_key_admitted : forall (Edur B q now : Z),
+  0 <= Edur -> 1 <= B <= i64max -> 0 <= q <= B -> 0 <= now <= t2200 ->
+  g_allowed (gen_calc Edur B q now None) = true.
 Print Assumptions gen_calc_is_model.
 Print Assumptions gen_validate_is_model.
+Print Assumptions source_arithmetic_sanity.
+Print Assumptions source_fresh_key_admitted.
 """
 
 
@@ -152,7 +164,7 @@ def source_tie(ctx):
       differ is a broken correspondence with that input (the property oracles then look for a failing history); no such
       input means an equivalent rewrite that the tie's tactics do not see through: recorded, T2 decides."""
     rc, out = run([sys.executable, os.path.join(VERIF, "tools", "extract_limiter.py")], timeout=60)
-    info = {"translator": "tools/extract_limiter.py", "generated": "coq/Generated/LimGen.v", "theorems": ["gen_calc_is_model", "gen_validate_is_model"]}
+    info = {"translator": "tools/extract_limiter.py", "generated": "coq/Generated/LimGen.v", "theorems": ["gen_calc_is_model", "gen_validate_is_model", "source_arithmetic_sanity", "source_fresh_key_admitted"]}
     ctx.coverage["source_tie"] = info
     if rc != 0:
         info["status"] = "translator failed"
@@ -163,7 +175,7 @@ def source_tie(ctx):
         ctx.notes.append("T1b: " + out.strip()[:400])
     with Lock("coq"):
         coq_makefile()
-        rc, mout = run(["make", "-j%d" % NPROC, "Limiter/GenTie.vo"], cwd=COQ, timeout=900)
+        rc, mout = run(["make", "-j%d" % NPROC, "Limiter/GenSource.vo"], cwd=COQ, timeout=900)
     if rc == 0:
         wd = ctx.workdir()
         fn = os.path.join(wd, "tie_audit.v")
@@ -171,7 +183,7 @@ def source_tie(ctx):
             f.write(TIE_AUDIT)
         rc2, aout = run(["coqc", "-q", "-noglob", "-Q", COQ, "TC", fn], timeout=300, cwd=wd)
         closed = aout.count("Closed under the global context")
-        if rc2 == 0 and closed == 2:
+        if rc2 == 0 and closed == 4:
             info.setdefault("status", "proved: the translated source arithmetic equals the model for every input (axiom-free)")
         else:
             info["status"] = "tie compiled but its audit failed"
